@@ -108,6 +108,7 @@ class Ctx:
         self.facts: list[Fact] = []
         self.dom: list = []
         self.dom_simple: list = []
+        self.links: list = []  # (z3 var, power, Sym expr): definitional equalities var**power == expr (abstraction of operands)
         self.angle_links: list = []  # (coarse cos var, coarse sin var, polynomial in the finer atom's cos/sin)
         self.fp_inputs: dict = {}  # input name -> z3 Float64 constant (FP lane)
         self.inputs: dict[str, tuple] = {}  # name -> (z3 var, kind)
